@@ -47,7 +47,7 @@ def sched_program(rng, provider, ternary):
             Rel('r', kt + [I, I], ds=provider),
             Rel('mirror', kt + [I, I]), Rel('rd_bf', kt + [I, I]), Rel('rd_fb', kt + [I, I]), Rel('rd_bb', kt + [I, I]),
             Rel('rd_xx', kt + [I]), Rel('rd_c', kt + [I]), Rel('cnt', [I]), Rel('cntk', kt + [I, I]), Rel('non', kt + [I, I]),
-            Rel('back', kt + [I, I]), Rel('jn', kt + [I, I]), Rel('trig', kt + [I]), Rel('jn2', kt + [I, I])]
+            Rel('back', kt + [I, I]), Rel('jn', kt + [I, I]), Rel('trig', kt + [I]), Rel('jn2', kt + [I, I]), Rel('jn3', kt + [I, I])]
     c = rng.randrange(0, 4)
     rules = [
         Rule([Head('r', kv + [V('x'), V('y')])], [Clause('seed', ka + [AVar('x'), AVar('y')])]),
@@ -72,6 +72,9 @@ def sched_program(rng, provider, ternary):
         # ... and a relation whose delta is one iteration ahead of `back`'s, joined against the key's older facts
         Rule([Head('jn2', kv + [V('w'), V('y')])], [Clause('trig', ka + [AVar('w')]), Clause('r', ka + [AVar('w'), AVar('y')])]),
         Rule([Head('r', kv + [V('y'), V('w')])], [Clause('jn2', ka + [AVar('w'), AVar('y')]), Clause('q3', [AVar('w')]), Clause('q2', [AVar('y')])]),
+        # a reader with three body clauses inside the recursive stratum (such rules get the any-relation-empty shortcut)
+        Rule([Head('jn3', kv + [V('x'), V('y')])], [Clause('q', [AVar('x')]), Clause('r', ka + [AVar('x'), AVar('y')]), Clause('q2', [AVar('y')])]),
+        Rule([Head('r', kv + [V('y'), V('x')])], [Clause('jn3', ka + [AVar('x'), AVar('y')]), Clause('q3', [AVar('x')])]),
     ]
     if ternary:
         # readers binding the key column in every combination
@@ -154,3 +157,39 @@ def random_program(rng, provider, ternary_ok=True):
         p2 = Program(rels, rules)
         return p2, input_rels, tagged, cfg.dom
     raise RuntimeError('no taggable relation generated')
+
+
+def simple_positive_program(rng, provider, ternary=False):
+    """tagged relation fed from a plain one in an early stratum, extended and read in later (also looping) strata;
+    no negation / aggregation, so facts may be added between runs"""
+    I = T.I32
+    kt = [I] if ternary else []
+    ka = [AVar('k')] if ternary else []
+    kv = [V('k')] if ternary else []
+    rels = [Rel('edge', kt + [I, I]), Rel('extra', kt + [I, I]), Rel('q', [I]), Rel('r', kt + [I, I], ds=provider), Rel('mirror', kt + [I, I]),
+            Rel('reach', kt + [I, I]), Rel('from_q', kt + [I, I]), Rel('to_q', kt + [I, I])]
+    rules = [
+        Rule([Head('r', kv + [V('x'), V('y')])], [Clause('edge', ka + [AVar('x'), AVar('y')])]),
+        # a later looping stratum reads and extends the tagged relation
+        Rule([Head('reach', kv + [V('x'), V('y')])], [Clause('r', ka + [AVar('x'), AVar('y')]), Clause('q', [AVar('x')])]),
+        Rule([Head('reach', kv + [V('x'), V('z')])], [Clause('reach', ka + [AVar('x'), AVar('y')]), Clause('extra', ka + [AVar('y'), AVar('z')])]),
+        Rule([Head('r', kv + [V('x'), V('y')])], [Clause('reach', ka + [AVar('x'), AVar('y')]), Clause('q', [AVar('y')])]),
+        Rule([Head('mirror', kv + [V('x'), V('y')])], [Clause('r', ka + [AVar('x'), AVar('y')])]),
+        Rule([Head('from_q', kv + [V('x'), V('y')])], [Clause('q', [AVar('x')]), Clause('r', ka + [AVar('x'), AVar('y')])]),
+        Rule([Head('to_q', kv + [V('x'), V('y')])], [Clause('q', [AVar('y')]), Clause('r', ka + [AVar('x'), AVar('y')])]),
+    ]
+    prog = Program(rels, rules)
+
+    def inputs(rng):
+        n = rng.choice([3, 4, 5, 6])
+        nk = rng.choice([1, 2]) if ternary else 1
+        rows = []
+        for rel, m in (('edge', rng.randrange(1, 2 * n)), ('extra', rng.randrange(0, n))):
+            for _ in range(m):
+                rows.append((rel, ((rng.randrange(nk),) if ternary else ()) + (rng.randrange(n), rng.randrange(n))))
+        for x in rng.sample(range(n), rng.randrange(0, n + 1)):
+            rows.append(('q', (x,)))
+        rows = list(dict.fromkeys(rows))
+        rng.shuffle(rows)
+        return rows
+    return prog, ['edge', 'extra', 'q'], inputs
